@@ -25,9 +25,6 @@ theorem source_shape :
       Impl.Pack.sourceOk = true ∧ Impl.Lower.strict = true ∧ VC.sourceOk = true := by
   decide
 
-theorem consults_false : consults = false := by decide
-theorem sourceOk_true : Impl.Pack.sourceOk = true := by decide
-
 /-- **(1) PACK = 05 ++ canonical optimized binary Micheline** — the canonical form `Spec.Pack.optimized` is stated
 without annotations (components = the whole right spine; `Pair a b`, `Pair a (Pair b c)`, sequence from 4 on) -/
 theorem pack_eq_spec (env : Env) (τ : Ty) (v : Val) (hp : packable τ = true) (hty : hasTy env τ v = true) :
